@@ -1,7 +1,7 @@
 SPECIFICATION MCSpec
 CONSTANTS
  Part = "ctl"
- Threads = {1, 2, 3}
+ Threads = {1, 2}
  Impls <- ImplsDX
  WrapperSubs = "forward"
  Template = FALSE
@@ -18,7 +18,7 @@ CONSTANTS
  MCOps <- OpsAll
  MCSetImpl <- ToDX
  MCSetIds <- IdsQU
- MaxDecide = 1
+ MaxDecide = 2
  MCTokens <- Tok1
  MCSubs <- OneSub
  MaxMsg = 1
